@@ -58,3 +58,44 @@ def c01(ctx):
     ctx.bounds.update({'threads': 2, 'ops_per_thread': 1, 'loop_bound_symbolic_iterations': 4, 'memory_model': 'SC'})
     for name in (['a_fast'] if ctx.tier == 'quick' else ['a_fast', 'a_full', 'b_fallback']):
         conc_run(ctx, SPECS[name], loop_bound=4)
+
+
+def seq_run(ctx, entry, flavor='rel', features=(), covers=(1,), **kw):
+    s = ctx.session(flavor, features)
+    r = s.run_seq(entry, covers=list(covers), **kw)
+    r['mode'] = 'M1'
+    r['sample'] = {'scenario': entry, 'paths': r['paths'], 'statuses': r['statuses']}
+    return ctx.add(tag(r, flavor=flavor, features=features))
+
+
+TS = ('test-strategies',)
+
+
+@prop('C14')
+def c14(ctx):
+    ctx.bounds.update({'program_length': 2 if ctx.tier == 'quick' else 3, 'containers': 1, 'pool_values': 3,
+                       'guards_held': 2, 'operations': 'load(kept), load_full, guard drop, store, swap, compare_and_swap, rcu, Guard::into_inner/from_inner, into_inner',
+                       'strategies': ['DefaultStrategy', 'HybridStrategy<NoFastSlots>', 'RwLock<()>']})
+    ctx.outside += ['programs longer than the bound', 'several containers in one program', 'None values (covered in C05/C16)']
+    n = '2' if ctx.tier == 'quick' else '3'
+    seq_run(ctx, 'c14_default_' + n, covers=(1, 2), max_paths=400000)
+    seq_run(ctx, 'c14_nofast_' + n, features=TS, covers=(1, 2), max_paths=400000)
+    seq_run(ctx, 'c14_rwlock_' + n, features=TS, covers=(1, 2), max_paths=400000)
+    if ctx.tier != 'quick':
+        seq_run(ctx, 'c14_default_3', flavor='dbg', covers=(1, 2), max_paths=400000)
+
+
+@prop('C16')
+def c16(ctx):
+    ctx.bounds.update({'program_length': 3 if ctx.tier == 'quick' else 5, 'caches': 'cache, clone, mapped cache', 'pool_values': 3})
+    seq_run(ctx, 'c16_seq_3' if ctx.tier == 'quick' else 'c16_seq_5', max_paths=400000)
+    seq_run(ctx, 'c16_option')
+
+
+@prop('C17')
+def c17(ctx):
+    ctx.bounds.update({'projection_depth': 2, 'access_forms': ['&ArcSwap', 'Map<&ArcSwap>', 'Map<&Map>', 'Map<Arc<ArcSwap>>', 'Box<dyn DynAccess>', 'Constant'],
+                       'stores': 'one before and one during the guards (symbolic values)'})
+    seq_run(ctx, 'c17_access')
+    if ctx.tier != 'quick':
+        seq_run(ctx, 'c17_access', flavor='dbg')
